@@ -65,7 +65,7 @@ def symbols_of(tree: ast.Module) -> Dict[str, List[str]]:
     for stmt in tree.body:
         for t in _targets(stmt):
             names.append(t)
-    return {"functions": sorted(set(funcs)), "names": sorted(set(names)), "attrs": class_attrs(tree), "params": func_params(tree), "shapes": func_shapes(tree), "locals": func_locals(tree), "bodies": func_bodies(tree)}
+    return {"functions": sorted(set(funcs)), "names": sorted(set(names)), "attrs": class_attrs(tree), "params": func_params(tree), "shapes": func_shapes(tree), "locals": func_locals(tree), "bodies": func_bodies(tree), "classes": sorted(n.name for n in ast.walk(tree) if isinstance(n, ast.ClassDef))}
 
 
 def _own_nodes(f: ast.AST):
@@ -159,10 +159,22 @@ def func_params(tree: ast.Module) -> Dict[str, List[str]]:
 
 
 def _stmt_texts(f: ast.AST, name: str) -> List[str]:
+    """Texts of the simple statements of f with its own name and its parameter names masked
+    (Name nodes only - keyword names at call sites are not the parameters)."""
+    params = [a.arg for a in f.args.posonlyargs + f.args.args + f.args.kwonlyargs]  # type: ignore[attr-defined]
+    pmap = {p_: f"P{i}" for i, p_ in enumerate(params) if p_ != "self"}
     out = []
     for st in ast.walk(f):
         if isinstance(st, ast.stmt) and st is not f and not isinstance(st, (ast.If, ast.For, ast.While, ast.Try, ast.With, ast.AsyncWith, ast.AsyncFor)):
-            out.append(ast.unparse(st).replace(name, "@"))
+            c = copy.deepcopy(st)
+            for n in ast.walk(c):
+                if isinstance(n, ast.Name) and n.id in pmap:
+                    n.id = pmap[n.id]
+                elif isinstance(n, ast.Name) and n.id == name:
+                    n.id = "SELFNAME"
+                elif isinstance(n, ast.Attribute) and n.attr == name:
+                    n.attr = "SELFNAME"
+            out.append(ast.unparse(c))
     return out
 
 
@@ -199,14 +211,14 @@ def func_bodies(tree: ast.Module) -> Dict[str, Dict[str, object]]:
     for q, f, parent in _walk_defs(tree):
         params = [a.arg for a in f.args.posonlyargs + f.args.args + f.args.kwonlyargs]
         is_method = isinstance(parent, ast.ClassDef)
-        if params != (["self"] if is_method else []) or f.args.vararg or f.args.kwarg or f.decorator_list:
+        if (is_method and params[:1] != ["self"]) or f.args.vararg or f.args.kwarg or f.decorator_list or f.args.defaults or f.args.kwonlyargs:
             continue
         if any(isinstance(n, ast.Return) and n.value is not None for n in ast.walk(f)) or _has_yield(f):
             continue
         body = [b for b in f.body if not (isinstance(b, ast.Expr) and isinstance(b.value, ast.Constant) and isinstance(b.value.value, str))]
         if not body or any(isinstance(n, ast.Return) for b in body for n in ast.walk(b)):
             continue
-        out[q] = {"async": isinstance(f, ast.AsyncFunctionDef), "stmts": [ast.unparse(b) for b in body]}
+        out[q] = {"async": isinstance(f, ast.AsyncFunctionDef), "stmts": [ast.unparse(b) for b in body], "params": [p_ for p_ in params if p_ != "self"]}
     return out
 
 
@@ -229,6 +241,7 @@ def reextract_inlined(tree: ast.Module, known: Dict[str, object]) -> List[str]:
             continue
         want = list(info["stmts"])  # type: ignore[index]
         is_async = bool(info["async"])  # type: ignore[index]
+        hparams = list(info.get("params", []))  # type: ignore[union-attr]
         found: List[Tuple[List[ast.stmt], int]] = []
 
         def scan(stmts: List[ast.stmt], in_async: bool) -> None:
@@ -256,14 +269,14 @@ def reextract_inlined(tree: ast.Module, known: Dict[str, object]) -> List[str]:
         for stmts, i in found:
             block_stmts = stmts[i : i + len(want)]
             callee: ast.expr = ast.Attribute(value=ast.Name(id="self", ctx=ast.Load()), attr=name, ctx=ast.Load()) if scope_name else ast.Name(id=name, ctx=ast.Load())
-            call: ast.expr = ast.Call(func=callee, args=[], keywords=[])
+            call: ast.expr = ast.Call(func=callee, args=[ast.Name(id=p_, ctx=ast.Load()) for p_ in hparams], keywords=[])
             if is_async:
                 call = ast.Await(value=call)
             st = ast.Expr(value=call)
             ast.copy_location(st, block_stmts[0])
             ast.fix_missing_locations(st)
             stmts[i : i + len(want)] = [st]
-        args = ast.arguments(posonlyargs=[], args=[ast.arg(arg="self")] if scope_name else [], kwonlyargs=[], kw_defaults=[], defaults=[])
+        args = ast.arguments(posonlyargs=[], args=([ast.arg(arg="self")] if scope_name else []) + [ast.arg(arg=p_) for p_ in hparams], kwonlyargs=[], kw_defaults=[], defaults=[])
         cls_ = ast.AsyncFunctionDef if is_async else ast.FunctionDef
         fn = cls_(name=name, args=args, body=[copy.deepcopy(b) for b in block_stmts], decorator_list=[], returns=None, type_comment=None, type_params=[])
         ast.copy_location(fn, block_stmts[0])
@@ -310,6 +323,71 @@ def unhoist_closures(tree: ast.Module, known: Dict[str, object]) -> List[str]:
         for i, st in enumerate(meth.body):
             if st is not new:
                 meth.body[i] = Sub().visit(st)
+        done.append(q)
+    return done
+
+
+def unpartial_closures(tree: ast.Module, known: Dict[str, object]) -> List[str]:
+    """A pinned closure `...f.c` that vanished while a NEW module-level function `c` appeared whose
+    only uses are `partial(c, a1..ak)` (ai plain names / attribute chains) inside `f`: the closure
+    was turned into a partial of a module-level function - nest it again with a1..ak substituted."""
+    done: List[str] = []
+    pinned = set(known.get("functions", []))  # type: ignore[arg-type]
+    defs = {q: (fn, parent) for q, fn, parent in _walk_defs(tree)}
+    for q in sorted(pinned - set(defs)):
+        if "." not in q:
+            continue
+        outer_q, cname = q.rsplit(".", 1)
+        if outer_q not in defs or cname in pinned or cname not in defs:
+            continue
+        new, parent = defs[cname]
+        outer = defs[outer_q][0]
+        if parent is not tree or new.decorator_list or new.args.kwonlyargs or new.args.defaults:
+            continue
+        uses = [n for n in ast.walk(tree) if isinstance(n, ast.Name) and n.id == cname and isinstance(n.ctx, ast.Load)]
+        partials = [c for c in ast.walk(outer) if isinstance(c, ast.Call) and _dotted(c.func) in ("partial", "functools.partial") and c.args and isinstance(c.args[0], ast.Name) and c.args[0].id == cname and not c.keywords]
+        if not partials or len(uses) != len(partials):
+            continue
+        bound = [ast.unparse(a) for a in partials[0].args[1:]]
+        if any([ast.unparse(a) for a in c.args[1:]] != bound for c in partials) or any(_dotted(a) is None for a in partials[0].args[1:]):
+            continue
+        k = len(bound)
+        if k > len(new.args.args):
+            continue
+        sub = {p_.arg: a for p_, a in zip(new.args.args[:k], partials[0].args[1:])}
+        stored = {n.id for n in ast.walk(new) if isinstance(n, ast.Name) and isinstance(n.ctx, ast.Store)}
+        if stored & set(sub):
+            continue
+        closure = copy.deepcopy(new)
+        closure.args.args = closure.args.args[k:]
+
+        class Sub(ast.NodeTransformer):
+            def visit_Name(self, node: ast.Name):  # noqa: N802
+                if node.id in sub and isinstance(node.ctx, ast.Load):
+                    return ast.copy_location(copy.deepcopy(sub[node.id]), node)
+                return node
+
+        closure.body = [Sub().visit(b) for b in closure.body]
+        tree.body.remove(new)
+
+        class Unp(ast.NodeTransformer):
+            def visit_Call(self, node: ast.Call):  # noqa: N802
+                self.generic_visit(node)
+                if any(node is c for c in partials):
+                    return ast.copy_location(ast.Name(id=cname, ctx=ast.Load()), node)
+                return node
+
+        first = min((getattr(c, "lineno", 0) for c in partials))
+        # insert the closure before the first statement of `outer` that uses it
+        idx = 0
+        for i, st in enumerate(outer.body):
+            if any(any(x is c for c in partials) for x in ast.walk(st)):
+                idx = i
+                break
+        outer.body = [Unp().visit(b) for b in outer.body]
+        ast.copy_location(closure, outer.body[idx])
+        outer.body.insert(idx, closure)
+        ast.fix_missing_locations(outer)
         done.append(q)
     return done
 
@@ -604,8 +682,46 @@ class _Small(ast.NodeTransformer):
                 return new
         return node
 
+    def _split_handler(self, h: ast.ExceptHandler) -> Optional[List[ast.ExceptHandler]]:
+        """`except (A, B) as e:` whose body branches on `isinstance(e, A)` is two handlers."""
+        if not (h.name and isinstance(h.type, ast.Tuple) and len(h.type.elts) == 2):
+            return None
+        texts = [ast.unparse(e) for e in h.type.elts]
+        tests = [st for st in h.body if isinstance(st, ast.If) and _is_isinstance(st.test) and isinstance(st.test.args[0], ast.Name) and st.test.args[0].id == h.name]
+        if not tests:
+            return None
+        tested = {ast.unparse(t.test.args[1]) for t in tests}
+        if len(tested) != 1 or next(iter(tested)) not in texts:
+            return None
+        # the name must not be tested in any other way at top level (keep it simple and exact)
+        ctext = next(iter(tested))
+        first_cls = h.type.elts[texts.index(ctext)]
+        other_cls = h.type.elts[1 - texts.index(ctext)]
+
+        def spec(take_body: bool) -> List[ast.stmt]:
+            out: List[ast.stmt] = []
+            for st in h.body:
+                if any(st is t for t in tests):
+                    out.extend(copy.deepcopy(st.body if take_body else st.orelse))
+                else:
+                    out.append(copy.deepcopy(st))
+            return out or [ast.Pass()]
+
+        h1 = ast.ExceptHandler(type=first_cls, name=h.name, body=spec(True))
+        h2 = ast.ExceptHandler(type=other_cls, name=h.name, body=spec(False))
+        for x in (h1, h2):
+            ast.copy_location(x, h)
+            ast.fix_missing_locations(x)
+        self.count += 1
+        return [h1, h2]
+
     def visit_Try(self, node: ast.Try):  # noqa: N802
         self.generic_visit(node)
+        new_handlers: List[ast.ExceptHandler] = []
+        for h in node.handlers:
+            sp = self._split_handler(h)
+            new_handlers.extend(sp if sp is not None else [h])
+        node.handlers = new_handlers
         # try/except/else whose handlers all leave: the else body may as well follow the try
         if node.orelse and not node.finalbody and node.handlers and all(_leaves_block(h.body) for h in node.handlers):
             tail = node.orelse
@@ -714,19 +830,117 @@ def _class_list(e: ast.expr) -> List[ast.expr]:
     return list(e.elts) if isinstance(e, ast.Tuple) else [e]
 
 
+def scalar_replace(tree: ast.Module, pinned_classes: Set[str]) -> List[str]:
+    """A local holding an instance of a NEW record-like class (fields with defaults, no methods)
+    that is only ever used as `v.field` is the same as one local per field ("scalar replacement of
+    aggregates"): `v = C(); v.a = 1; use(v.a)` reads `a = <default>; a = 1; use(a)`."""
+    done: List[str] = []
+    records: Dict[str, List[Tuple[str, Optional[ast.expr]]]] = {}
+    for c in [n for n in tree.body if isinstance(n, ast.ClassDef) and n.name not in pinned_classes]:
+        fields: List[Tuple[str, Optional[ast.expr]]] = []
+        ok = not c.bases or all(_dotted(b) in ("NamedTuple", "typing.NamedTuple") for b in c.bases) is False and not c.bases
+        for st in c.body:
+            if isinstance(st, ast.Expr) and isinstance(st.value, ast.Constant):
+                continue
+            if isinstance(st, ast.AnnAssign) and isinstance(st.target, ast.Name):
+                v = st.value
+                if isinstance(v, ast.Call) and _dotted(v.func) in ("field", "dataclasses.field"):
+                    kw = {k.arg: k.value for k in v.keywords}
+                    if "default_factory" in kw:
+                        v = ast.Call(func=kw["default_factory"], args=[], keywords=[])
+                    elif "default" in kw:
+                        v = kw["default"]
+                    else:
+                        v = None
+                fields.append((st.target.id, v))
+            elif isinstance(st, ast.Assign) and len(st.targets) == 1 and isinstance(st.targets[0], ast.Name):
+                fields.append((st.targets[0].id, st.value))
+            else:
+                ok = False
+        if ok and fields:
+            records[c.name] = fields
+    if not records:
+        return done
+    for f in [n for n in ast.walk(tree) if isinstance(n, FuncDef)]:
+        for holder in list(ast.walk(f)):
+            for fld in ("body", "orelse", "finalbody"):
+                stmts = getattr(holder, fld, None)
+                if not (isinstance(stmts, list) and stmts and isinstance(stmts[0], ast.stmt)):
+                    continue
+                for i, st in enumerate(list(stmts)):
+                    if not (isinstance(st, (ast.Assign, ast.AnnAssign)) and getattr(st, "value", None) is not None and isinstance(st.value, ast.Call) and isinstance(st.value.func, ast.Name) and st.value.func.id in records):
+                        continue
+                    tgt = st.targets[0] if isinstance(st, ast.Assign) and len(st.targets) == 1 else getattr(st, "target", None)
+                    if not isinstance(tgt, ast.Name):
+                        continue
+                    v = tgt.id
+                    fields = records[st.value.func.id]
+                    fnames = [a for a, _ in fields]
+                    uses = [n for n in ast.walk(f) if isinstance(n, ast.Name) and n.id == v and n is not tgt]
+                    attr_uses = [n for n in ast.walk(f) if isinstance(n, ast.Attribute) and isinstance(n.value, ast.Name) and n.value.id == v]
+                    if len(uses) != len(attr_uses) or any(a.attr not in fnames for a in attr_uses):
+                        continue
+                    other_names = {n.id for n in ast.walk(f) if isinstance(n, ast.Name)} | {a.arg for a in f.args.posonlyargs + f.args.args + f.args.kwonlyargs}
+                    if set(fnames) & other_names:
+                        continue
+                    # constructor arguments
+                    init: Dict[str, ast.expr] = {}
+                    if len(st.value.args) > len(fields) or any(k.arg not in fnames for k in st.value.keywords):
+                        continue
+                    for (a, _), val in zip(fields, st.value.args):
+                        init[a] = val
+                    for k in st.value.keywords:
+                        init[k.arg] = k.value
+                    if any(a not in init and d is None for a, d in fields):
+                        continue
+                    new_stmts: List[ast.stmt] = []
+                    for a, d in fields:
+                        asg = ast.Assign(targets=[ast.Name(id=a, ctx=ast.Store())], value=copy.deepcopy(init.get(a, d)))
+                        ast.copy_location(asg, st)
+                        new_stmts.append(asg)
+                    stmts[stmts.index(st) : stmts.index(st) + 1] = new_stmts
+
+                    class Sub(ast.NodeTransformer):
+                        def visit_Attribute(self, node: ast.Attribute):  # noqa: N802
+                            self.generic_visit(node)
+                            if isinstance(node.value, ast.Name) and node.value.id == v and node.attr in fnames:
+                                return ast.copy_location(ast.Name(id=node.attr, ctx=node.ctx), node)
+                            return node
+
+                    f.body = [Sub().visit(b) for b in f.body]
+                    # closures that now store to a field need it declared nonlocal
+                    for inner in [n for n in ast.walk(f) if isinstance(n, FuncDef) and n is not f]:
+                        stored = sorted({n.id for n in ast.walk(inner) if isinstance(n, ast.Name) and isinstance(n.ctx, ast.Store) and n.id in fnames})
+                        if stored:
+                            nl = ast.Nonlocal(names=stored)
+                            ast.copy_location(nl, inner.body[0])
+                            inner.body.insert(0, nl)
+                    ast.fix_missing_locations(f)
+                    done.append(f"{f.name}.{v}:{st.value.func.id}")
+    return done
+
+
 def expand_final_aliases(tree: ast.Module) -> int:
     """`conn = self.connection` (the attribute is assigned only in __init__, the local bound once,
     at the top level of the method) is a mere alias: its uses read as the attribute chain."""
     count = 0
     for cls in [n for n in ast.walk(tree) if isinstance(n, ast.ClassDef)]:
         assigned_outside_init: Set[str] = set()
+        store_count: Dict[str, int] = {}
         for m in cls.body:
-            if isinstance(m, FuncDef) and m.name != "__init__":
+            if isinstance(m, FuncDef):
                 for n in ast.walk(m):
                     if isinstance(n, ast.Attribute) and isinstance(n.ctx, (ast.Store, ast.Del)) and isinstance(n.value, ast.Name) and n.value.id == "self":
-                        assigned_outside_init.add(n.attr)
+                        par = [x for x in ast.walk(m) if isinstance(x, ast.AnnAssign) and x.target is n and x.value is None]
+                        if par:
+                            continue  # a bare annotation declares, it does not store
+                        store_count[n.attr] = store_count.get(n.attr, 0) + 1
+                        if m.name != "__init__":
+                            assigned_outside_init.add(n.attr)
+        # an attribute stored exactly once in the whole class is as good as final
+        assigned_outside_init = {a for a in assigned_outside_init if store_count.get(a, 0) > 1}
         for m in cls.body:
-            if not isinstance(m, FuncDef) or m.name == "__init__":
+            if not isinstance(m, FuncDef):
                 continue
             stores: Dict[str, int] = {}
             for n in ast.walk(m):
@@ -952,7 +1166,10 @@ class _Inliner:
             if isinstance(n, ast.Call) and _dotted(n.func) in (f.name, f"self.{f.name}"):  # type: ignore[attr-defined]
                 return False  # recursive
             if isinstance(n, FuncDef + (ast.Lambda,)) and n is not f:
-                return False
+                # nested scopes are moved verbatim: only safe when nothing has to be substituted
+                own = [x.arg for x in a.args if x.arg != "self"] + [x.arg for x in a.kwonlyargs]
+                if own:
+                    return False
         return True
 
     def _is_call(self, e: ast.AST, h: ast.AST, kind: str) -> Optional[ast.Call]:
@@ -1217,8 +1434,12 @@ def _replace_returns(body: List[ast.stmt], mk) -> List[ast.stmt]:
 def canonicalise(name: str, tree: ast.Module, known: Dict[str, Dict[str, List[str]]]) -> Dict[str, object]:
     stats: Dict[str, object] = {}
     k = known.get(name)
+    if k is not None and "classes" in k:
+        sr = scalar_replace(tree, set(k["classes"]))
+        if sr:
+            stats["records_scalar_replaced"] = sr
     if k is not None and k.get("functions"):
-        un = unhoist_closures(tree, k)
+        un = unhoist_closures(tree, k) + unpartial_closures(tree, k)
         if un:
             stats["closures_nested_again"] = un
     if k is not None and k.get("shapes"):
